@@ -1,7 +1,7 @@
 #!/bin/bash
 # seedtargets.sh [ids...] : apply each seeded change, run only the check of its target property (VERIF_SEED from env, default 1)
 cd /verif
-ids="$@"; [ -z "$ids" ] && ids=$(ls seeded | grep '^C[0-9][0-9]-[0-9]$')
+ids="$@"; [ -z "$ids" ] && ids=$(ls seeded | grep '^C[0-9][0-9]-[0-9a-z]$')
 if [ -n "$(git -C /repo status --porcelain --untracked-files=no)" ]; then echo "/repo is not clean"; exit 3; fi
 trap 'git -C /repo checkout -- . ; (cd /verif/engine && cargo build --release --offline 2>/dev/null); echo "[repo restored, engine rebuilt]"' EXIT
 for id in $ids; do
